@@ -36,7 +36,7 @@ def run(ctx):
     for config in ctx.configs():
         prog = ctx.prog(config)
         # ---- a
-        ec = prog.need_func('zck_end_chunk')
+        ec = chunk_end_function(prog)
 
         class Reset(FactRule):
             name = 'R6.buzhash-reset'
@@ -158,6 +158,29 @@ def run(ctx):
         auto_bounds(ck, prog, config, 'C16-e')
 
 
+def chunk_end_function(prog):
+    """The function that finishes a chunk on behalf of zck_end_chunk(): reachable from it (or itself), calls
+    the end_cchunk backend slot and index_finish_chunk."""
+    from ..frontend import AnalysisBroken
+    root = prog.need_func('zck_end_chunk')
+    seen, ext = prog.reachable_calls([root])
+    cands = []
+    for q in seen:
+        f = prog.funcs[q]
+        names = set()
+        for ex in all_exprs(f):
+            for c in calls_in(ex):
+                names.add(callee_name(c) or '')
+                from ..ir import callee_field
+                if callee_field(c):
+                    names.add('slot:' + callee_field(c))
+        if 'index_finish_chunk' in names and 'slot:end_cchunk' in names and f.name != 'comp_init':
+            cands.append(f)
+    if len(cands) != 1:
+        raise AnalysisBroken('chunk-end function not identified uniquely below zck_end_chunk: %s' % [f.name for f in cands])
+    return cands[0]
+
+
 def auto_bounds(ck, prog, config, clause):
     """Every success exit of comp_init in automatic write mode satisfies chunk_auto_min <= chunk_auto_max,
     derived with a minimal relational domain: facts A <= B from branch edges and copies, killed by writes."""
@@ -258,19 +281,19 @@ CLAIM = {
 
 MUTANTS = [
     {'id': 'm35', 'desc': 'buzhash_reset removed', 'file': 'src/lib/comp/comp.c',
-     'old': '    buzhash_reset(&(zck->buzhash));\n', 'new': '', 'expect': 'R6.buzhash-reset zck_end_chunk [finish]'},
+     'old': '    buzhash_reset(&(zck->buzhash));\n', 'new': '', 'expect': 'R6.buzhash-reset comp_end_chunk [finish]'},
     {'id': 'm35b', 'desc': 'buzhash_reset before the too-small test', 'file': 'src/lib/comp/comp.c',
-     'old': """    if(zck->comp.dc_data_size < zck->chunk_min_size) {
+     'old': """    if(!force && zck->comp.dc_data_size < zck->chunk_min_size) {
         zck_log(ZCK_LOG_DDEBUG, "Chunk too small, refusing to end chunk");
         return zck->comp.dc_data_size;
     }
 
     buzhash_reset(&(zck->buzhash));""", 'new': """    buzhash_reset(&(zck->buzhash));
-    if(zck->comp.dc_data_size < zck->chunk_min_size) {
+    if(!force && zck->comp.dc_data_size < zck->chunk_min_size) {
         zck_log(ZCK_LOG_DDEBUG, "Chunk too small, refusing to end chunk");
         return zck->comp.dc_data_size;
     }
-""", 'expect': 'R6.buzhash-reset zck_end_chunk [refuse]'},
+""", 'expect': 'R6.buzhash-reset comp_end_chunk [refuse]'},
     {'id': 'm37', 'desc': 'too-small continue removed', 'file': 'src/lib/comp/comp.c',
      'old': """                if(zck->comp.dc_data_size < zck->chunk_auto_min) {
                     zck_log(ZCK_LOG_DDEBUG,
